@@ -17,9 +17,12 @@ NAME_PIECES = ["rule", "é", "€", " ", "#", '"', "x", "1", ":", ";", "{", "Fil
                # itself an unusual blank: a name must come back whole, whatever its last character
                "à", "Å", "ą", "Ġ", "丠", "\u00a0x", "x\u2003y", "\u0085z", "ı", "ﬀ",
                # text that changes under Unicode normalisation or case folding: it must come back code point for code point
-               "e\u0301", "\u212b", "\u2126", "\uf900", "q\u0323\u0307", "q\u0307\u0323", "ǅ", "İ", "ß", "ﬁ"]
+               "e\u0301", "\u212b", "\u2126", "\uf900", "q\u0323\u0307", "q\u0307\u0323", "ǅ", "İ", "ß", "ﬁ",
+               "%", "%s", "%(name)s", "{}", "{0}", "%%"]
 PREFIXES = [("# Filter: ", "# Description: "), ("#F:", "#D:"), ("# name = ", "# about = "), ("#§ ", "#¶ "),
-            ("# [rule] ", "# (about) "), ("# name? ", "# desc+ "), ("# rule.* ", "# d|x: "), ("# \\d ", "# ^$ "), ("# Rule (auto): ", "# {1} ")]
+            ("# [rule] ", "# (about) "), ("# name? ", "# desc+ "), ("# rule.* ", "# d|x: "), ("# \\d ", "# ^$ "), ("# Rule (auto): ", "# {1} "),
+            # text that means something to a string-formatting routine: it is marker text, written and recognised as it stands
+            ("# 100% rule: ", "# %s about: "), ("#%% ", "#%(name)s "), ("# {} ", "# {0}{name} "), ("# %d%% ", "# %(description)s")]
 
 
 def plain_line(r, prefixes, used):
@@ -72,7 +75,10 @@ def build(r):
                     fn(nm)
                 except Exception:  # noqa
                     pass
-            str(fs)
+            try:
+                str(fs)
+            except Exception:  # noqa — reported by check() below, with the set that provokes it
+                pass
             continue
         if op == "disable":
             fs.disablefilter(nm)
@@ -151,7 +157,10 @@ def run(ctx):
         try:
             bad, text = check(fs, pref)
         except Exception as e:  # noqa
-            text = str(fs)
+            try:
+                text = str(fs)
+            except Exception:  # noqa — rendering itself is what fails: describe the set by what was put into it
+                text = "# (rendering raised) filters: %r" % [(f["name"], f.get("description"), f["enabled"]) for f in fs.filters]
             bad = "saving / loading back raised %s: %s" % (type(e).__name__, str(e)[:120])
         texts.append(text.encode("utf-8"))
         if bad:
